@@ -224,8 +224,20 @@ func streamBuiltins(o *Out, r *rand.Rand, n int, thorough bool) {
 			for k, t := range env.PackageTypes[p] {
 				o.Sum.Evaluations++
 				o.Sum.Hist["package-type-entries"]++
+				depth := 0
 				for t.Kind() == reflect.Ptr {
 					t = t.Elem()
+					depth++
+				}
+				// the listed type itself, not a pointer to it - except the types deliberately registered as pointers
+				wantDepth := 0
+				if p == "sync" || (p == "sort" && k == "SortFuncsStruct") {
+					wantDepth = 1
+				}
+				if depth != wantDepth {
+					o.Fail(Failure{Oracle: "package-symbol-identity", Key: "package-type-indirection:" + p + "." + k,
+						Input: fmt.Sprintf("pk = import(%q)\ntypeOf(make([]pk.%s, 1))", p, k),
+						Detail: fmt.Sprintf("the entry is %d pointer level(s) away from the Go type %s.%s it is listed under (expected %d)", depth, p, k, wantDepth)})
 				}
 				if t.PkgPath() == "" || strings.Contains(t.PkgPath(), "mattn/anko/packages") || (p == "os" && k == "Signal") {
 					continue
@@ -419,6 +431,31 @@ func streamBuiltins(o *Out, r *rand.Rand, n int, thorough bool) {
 		{"s = \"abc\"\nb = toByteSlice(s)\nb[0] = 88\n[s, toString(b)]", []interface{}{"abc", "Xbc"}},
 		{"l = [1, 2]\nt = toIntSlice(l)\nl[0] = 9\nt[1] = 7\n[l, t]", []interface{}{[]interface{}{int64(9), int64(2)}, []int64{1, 7}}},
 		{"r = toRuneSlice(\"ab\")\nc = toChar(r[0])\nr[0] = 122\nc", "a"},
+	}
+	// toRune / toChar / toRuneSlice / toByteSlice on texts that are not clean UTF-8: Go's own []rune(s) / string(r) decide
+	for _, txt := range []string{"\xffabc", "\xe4\xb8", "\uFFFDx", "a\xff", "é", "日本", "a", "\x00", "\xf0\x9f\x98\x80!", "\xc3"} {
+		rs := []rune(txt)
+		out := runScript("toRune(s)", map[string]interface{}{"s": txt}, coreEnv)
+		o.Sum.Evaluations++
+		o.Sum.Hist["rune-forms"]++
+		if out.panicked || out.err != nil || !reflect.DeepEqual(out.val, rs[0]) {
+			o.Fail(Failure{Oracle: "go-conversion", Key: "rune-form:toRune", Input: fmt.Sprintf("toRune(s) with s = %q", txt), Detail: fmt.Sprintf("Go's []rune(s)[0] is %d, got %#v err=%v", rs[0], out.val, out.err)})
+		}
+		out = runScript("toRuneSlice(s)", map[string]interface{}{"s": txt}, coreEnv)
+		o.Sum.Evaluations++
+		if out.panicked || out.err != nil || !reflect.DeepEqual(out.val, rs) {
+			o.Fail(Failure{Oracle: "go-conversion", Key: "rune-form:toRuneSlice", Input: fmt.Sprintf("toRuneSlice(s) with s = %q", txt), Detail: fmt.Sprintf("Go's []rune(s) is %v, got %#v err=%v", rs, out.val, out.err)})
+		}
+		out = runScript("toChar(toRune(s))", map[string]interface{}{"s": txt}, coreEnv)
+		o.Sum.Evaluations++
+		if out.panicked || out.err != nil || !reflect.DeepEqual(out.val, string(rs[0])) {
+			o.Fail(Failure{Oracle: "go-conversion", Key: "rune-form:toChar", Input: fmt.Sprintf("toChar(toRune(s)) with s = %q", txt), Detail: fmt.Sprintf("Go's string([]rune(s)[0]) is %q, got %#v err=%v", string(rs[0]), out.val, out.err)})
+		}
+		out = runScript("toString(toByteSlice(s))", map[string]interface{}{"s": txt}, coreEnv)
+		o.Sum.Evaluations++
+		if out.panicked || out.err != nil || !reflect.DeepEqual(out.val, txt) {
+			o.Fail(Failure{Oracle: "go-conversion", Key: "rune-form:bytes-round-trip", Input: fmt.Sprintf("toString(toByteSlice(s)) with s = %q", txt), Detail: fmt.Sprintf("expected the same bytes, got %#v err=%v", out.val, out.err)})
+		}
 	}
 	for _, c := range sliceCases {
 		out := runScript(c.src, nil, coreEnv)
